@@ -67,6 +67,12 @@ def target_functions():
     F["late"] = ("late()", step_if(1, 2, [("push", 1), "TIMESTAMP", "GT", "ISZERO"]) + sset([("push", 2)]) + ["STOP"], "nonpayable")
     F["anyt"] = ("anyt()", step_if(1, 2) + sset([("push", 2)]) + ["STOP"], "nonpayable")
     F["early"] = ("early()", step_if(2, 2, [("push", 1), "TIMESTAMP", "GT"]) + [("push", 9), ("push", 1), "SSTORE", "STOP"], "nonpayable")
+    # names that are reserved in the *test* contract only: in a target they are ordinary state-changing functions
+    F["chk"] = ("check_in()", sset([("push", 7)]) + ["STOP"], "nonpayable")
+    F["invx"] = ("invariant_x()", sset(S + [("push", 2), "ADD"]) + ["STOP"], "nonpayable")
+    F["stp"] = ("setUp()", sset([("push", 5)]) + ["STOP"], "nonpayable")
+    F["aft"] = ("afterInvariant()", [("push", 9), ("push", 1), "SSTORE", "STOP"], "nonpayable")
+    F["prv"] = ("prove_it()", sset([("push", 3)]) + ["STOP"], "nonpayable")
     F["get"] = ("get()", S + ["PUSH0", "MSTORE"] + T + [("push", 32), "MSTORE", ("push", 64), "PUSH0", "RETURN"], "view")
     return F
 
@@ -131,7 +137,10 @@ def invariant_body(i, field, rel, c):
     if rel == "nebr":  # as "ne", after two branches on the value that change nothing (several paths per symbolic state)
         pre = e2e.if_then(load + [("push", 100), "EQ"], [], "b1") + e2e.if_then(load + [("push", 101), "EQ"], [], "b2")
         return pre + e2e.if_then(load + [("push", c), "EQ"], panic(1), "brk") + ["STOP"]
-    if rel == "ne":
+    if rel == "loopne":  # i = 0; while (i < value) i++; broken iff i == c  (a loop on a stored, possibly symbolic, value inside the invariant body)
+        broken = load + ["PUSH0", ("label", "ltop"), "DUP2", "DUP2", "LT", "ISZERO", ("ref", "lexit"), "JUMPI", ("push", 1), "ADD", ("ref", "ltop"), "JUMP", ("label", "lexit"),
+                         ("push", c), "EQ", "SWAP1", "POP"]
+    elif rel == "ne":
         broken = load + [("push", c), "EQ"]
     elif rel == "lenow":  # value <= block.timestamp: broken iff TIMESTAMP < value (time never goes backwards along a call sequence)
         broken = load + ["TIMESTAMP", "LT"]
